@@ -10,6 +10,7 @@ import (
 	"fmt"
 	"os"
 	"reflect"
+	"runtime"
 	"strings"
 	"sync"
 	"testing"
@@ -350,4 +351,39 @@ func canonEq(a, b reflect.Value, depth int) bool {
 		return a.String() == b.String()
 	}
 	return false
+}
+
+// Leaked names the goroutines (other than the caller and the test runner) that are still inside
+// library or harness code after a grace period; "" when there are none.
+func Leaked() string {
+	var out string
+	for try := 0; try < 100; try++ {
+		out = ""
+		buf := make([]byte, 1<<20)
+		buf = buf[:runtime.Stack(buf, true)]
+		for i, g := range strings.Split(string(buf), "\n\n") {
+			if i == 0 || !strings.Contains(g, "github.com/aptpod/iscp-go/") {
+				continue
+			}
+			if strings.Contains(g, "testing.(*T).Run(") || strings.Contains(g, "testing.(*M).Run(") {
+				continue
+			}
+			lines := strings.Split(g, "\n")
+			desc := ""
+			for k := 1; k < len(lines) && k < 14; k += 2 {
+				f := lines[k]
+				if j := strings.LastIndex(f, "("); j > 0 {
+					f = f[:j]
+				}
+				desc += f + " < "
+			}
+			out += "[" + desc + "] "
+		}
+		if out == "" {
+			return ""
+		}
+		time.Sleep(20 * time.Millisecond)
+	}
+	fmt.Println("VF-LEAKED", out)
+	return out
 }
